@@ -901,6 +901,10 @@ class X12ContextReader(object):
                 if cur_data_node.id != 'ISA' and cur_data_node is not None:
                     assert cur_data_node.parent is not None, 'Node "%s" has no parent' % (cur_data_node.id)
                 yield cur_data_node
+        if cur_tree is not None:
+            # the requested loop was still open at the end of input (always the
+            # case for ISA_LOOP): hand over the last tree as well
+            yield cur_tree
 
     def register_error_callback(self, callback, err_type):
         """
